@@ -662,3 +662,11 @@ M('c02d-merge-order-swapped', 'C02', 'break', RG,
   '            bstr_add_mem_noex(h_existing->value, ", ", 2);\n            bstr_add_noex(h_existing->value, h->value);', '            bstr_add_noex(h_existing->value, h->value);\n            bstr_add_mem_noex(h_existing->value, ", ", 2);', 'C02.d')
 M('c02e-basic-auth-split-at-last-colon', 'C02', 'break', 'htp/htp_parsers.c',
   'int i = bstr_index_of_c(decoded, ":");', 'int i = bstr_rchr(decoded, \':\');', 'C02.e')
+
+# ---------------- C16.i
+M('c16i-response-side-frees-request-header', 'C16', 'break', RS,
+  '                    bstr_free(connp->out_header);\n                    connp->out_header = NULL;', '                    bstr_free(connp->in_header);\n                    connp->out_header = NULL;', 'C16.i', count=2)
+M('c16i-request-callback-reads-response-length', 'C16', 'break', TX,
+  'd->tx->request_entity_len > HTP_COMPRESSION_BOMB_RATIO * d->tx->request_message_len', 'd->tx->request_entity_len > HTP_COMPRESSION_BOMB_RATIO * d->tx->response_message_len', 'C16.i')
+M('c16i-response-driver-clears-request-status', 'C16', 'break', RS,
+  '    // Remember the timestamp of the current response data chunk', '    connp->in_status = HTP_STREAM_DATA;\n    // Remember the timestamp of the current response data chunk', 'C16.i')
